@@ -210,6 +210,10 @@ fn validate_child_parents_attrs(children_attrs: &[ChildParentsAttr], type_paths:
             if !unique_field.insert(child_data) {
                 errors.insert("Ident here must be unique.".into(), child_data.field_path.span());
             }
+            // a unit struct has no fields to put child members into (the expander has no such form)
+            if child_data.type_hint == TypeHint::Unit {
+                errors.insert("Type hint 'as Unit' is not applicable to #[child_parents(...)] entries.".into(), child_data.field_path.span());
+            }
         }
     }
 }
